@@ -581,8 +581,11 @@ impl Memfs {
                     // Update mode as directed
                     dst.set_mode(file_mode.or(Some(src.mode())));
 
-                    // Add the new dst entry to the filesystem
+                    // Add the new dst entry to the filesystem, an existing file takes on the new mode
                     self._add(guard, dst)?;
+                    if let Some(x) = guard.get_entry_mut(&dst_path) {
+                        x.set_mode(file_mode.or(Some(src.mode())));
+                    }
 
                     // Copy the src file over as well
                     if !src.is_symlink() {
